@@ -145,6 +145,14 @@ func init() {
 	reg(rtPkg+"Assert", func(in *Interp, fn *ssa.Function, a []Value) (Value, *iPanic) {
 		c := a[0].(*sym.Term)
 		label := in.argStr(a[1])
+		if c.IsConst() && c.B {
+			// decided by term rewriting (both sides reduced to the same term): still an assertion that was reached
+			in.local.FoldedAsserts++
+			if in.local.NontrivialOb == nil {
+				in.local.NontrivialOb = map[string]bool{}
+			}
+			in.local.NontrivialOb["assert(decided by rewriting):"+label+" @ "+in.curSite()] = true
+		}
 		if !in.obligation(c, "assert:"+label) {
 			site := "?"
 			if len(in.stack) > 0 {
